@@ -64,6 +64,12 @@ Qed.
 Lemma tsame_save_flat w ws k u : tsame w (save_flat w ws k u).
 Proof. unfold save_flat. destruct (_ && _); [apply tsame_set_flat | apply tsame_refl]. Qed.
 
+Lemma tsame_save_node w ws par k u : tsame w (save_node w ws par k u).
+Proof. destruct (save_node_facts w ws par k u) as [A [_ [B [C D]]]]. apply tsame_E; assumption. Qed.
+
+Lemma tsame_set_links w ws l : tsame w (set_links w ws l).
+Proof. apply tsame_E; reflexivity. Qed.
+
 Lemma tsame_find_in w ws k u : k <> KType -> tsame w (fst (find_in w ws k u)).
 Proof. intros Hk. unfold find_in. destruct (get_clean_ref _ _ _) as [d r]. apply tsame_set_R. exact Hk. Qed.
 
@@ -199,10 +205,10 @@ Proof.
     set (w3 := upd (set_R w2 ws k d) (n w) (fun r => with_reg r props)) in *.
     assert (S3' : tsame w2 w3).
     { eapply tsame_trans; [apply tsame_set_R; exact Hk | apply tsame_upd; intros r; repeat split; reflexivity]. }
-    set (w4 := touch_metadata (save_flat w3 ws k u) ws k u).
+    set (w4 := touch_metadata (save_node w3 ws par k u) ws k u).
     assert (S4' : tsame w2 w4).
-    { eapply tsame_trans; [exact S3'|]. eapply tsame_trans; [apply tsame_save_flat | apply tsame_touch]. }
-    assert (G4 : good w4) by (apply good_touch, good_save_flat, G3).
+    { eapply tsame_trans; [exact S3'|]. eapply tsame_trans; [apply tsame_save_node | apply tsame_touch]. }
+    assert (G4 : good w4) by (apply good_touch, good_save_node, G3).
     assert (T4 : typed w4) by (eapply typed_tsame; eassumption).
     destruct (memb (n w) (ech (E w4 par))); [exact T4|].
     apply typed_kill; [exact G4 | exact T4|]. intros y [<-|[]]. rewrite (Kx w4 S4'). exact Hk.
@@ -378,6 +384,7 @@ Lemma tsame_clear_children w o : tsame w (clear_children w o).
 Proof.
   unfold clear_children. apply tsame_fold. intros w0 x.
   destruct (kind_eqb (ekind (E w0 x)) KPG); [apply tsame_drop_child|].
+  unfold drop_node_links, del_link. eapply tsame_trans; [|apply tsame_set_links]. eapply tsame_trans; [|apply tsame_set_links].
   eapply tsame_trans; [|apply tsame_set_flat]. eapply tsame_trans; [|apply tsame_drop_child].
   unfold scrub_groups. apply tsame_fold. intros w1 g. destruct (eprops (E w1 g)) as [|a l]; [apply tsame_refl|].
   assert (S1 : tsame w1 (upd w1 g (fun r => with_props r (filter (fun x0 => negb (Nat.eqb x0 (euid (E w0 x)))) (a :: l)))))
@@ -390,7 +397,7 @@ Proof.
   intros G T. unfold sweep.
   assert (T1 : typed (set_R w ws k (remove_none_referents (alive w) (R w ws k)))).
   { destruct k; try (eapply typed_tsame; [apply tsame_set_R; discriminate | exact T]). apply typed_sweep_types. exact T. }
-  destruct (kidx_storable k); [eapply typed_tsame; [apply tsame_set_flat | exact T1] | exact T1].
+  destruct (kidx_storable k); [|exact T1]. eapply typed_tsame; [apply tsame_set_links|]. eapply typed_tsame; [apply tsame_set_flat | exact T1].
 Qed.
 
 Lemma typed_step c w a : good w -> typed w -> typed (fst (step c w a)).
@@ -423,8 +430,11 @@ Proof.
     assert (S0 : tsame w w0) by (unfold w0; destruct (kind_eqb _ _); [apply tsame_clear_children | apply tsame_refl]).
     assert (G0 : good w0) by (unfold w0; destruct (kind_eqb _ _); [apply good_clear_children; exact G | exact G]).
     apply typed_sweep.
-    + apply good_set_flat. apply good_upd_ch; [intros r; apply with_ch_ids | exact G0].
-    + match goal with |- typed (set_flat ?w1 ?a ?l) => apply (typed_tsame w1 _ (tsame_set_flat w1 a l)) end.
+    + unfold drop_node_links, del_link. apply good_set_links, good_set_links, good_set_flat. apply good_upd_ch; [intros r; apply with_ch_ids | exact G0].
+    + unfold drop_node_links, del_link.
+      match goal with |- typed (set_links ?w1 ?a ?l) => apply (typed_tsame w1 _ (tsame_set_links w1 a l)) end.
+      match goal with |- typed (set_links ?w1 ?a ?l) => apply (typed_tsame w1 _ (tsame_set_links w1 a l)) end.
+      match goal with |- typed (set_flat ?w1 ?a ?l) => apply (typed_tsame w1 _ (tsame_set_flat w1 a l)) end.
       eapply typed_tsame; [|exact T]. eapply tsame_trans; [exact S0|].
       apply tsame_upd; intros r; repeat split; reflexivity.
   - match goal with |- context [if ?b then _ else _] => destruct b eqn:Eb end; [|exact T]. cbn [fst].
